@@ -52,6 +52,7 @@ def main():
     guarded(run, "nested_stream", S.nested_stream, run, drv)
     guarded(run, "update_entry_stream", S.update_entry_stream, run, drv)
     guarded(run, "update_at_entry_stream", S.update_at_entry_stream, run)
+    guarded(run, "storage_setitem_stream", S.storage_setitem_stream, run, drv)
     import c16_extended as E
     guarded(run, "advanced_reads", E.advanced_reads, run)
     guarded(run, "writes", E.writes, run)
